@@ -27,6 +27,11 @@ RULES = {
 def optimal_terms():
     c = pulpfacts.constants()
     out = {A(lp.MODEL, 'OPTIMAL_PULP_STATUS'), C('Optimal')}
+    # the integer code of the Optimal status, for tests on prob.status itself (read from pulp/constants.py)
+    code = c['names'].get('LpStatusOptimal')
+    if isinstance(code, int):
+        out.add(('rawcode', C(code)))
+        out.add(('rawcode', S('LpStatusOptimal')))
     return out
 
 
